@@ -9,7 +9,7 @@ From AUC Require Import Prelude.PyStr Prelude.PyDict Prelude.Utf8 C16.Model C08.
 Import ListNotations.
 Local Open Scope N_scope.
 
-Inductive pyexn := XInvalidHeader | XLineTooLong | XUnicodeDecode | XValueError.
+Inductive pyexn := XInvalidHeader | XLineTooLong | XUnicodeDecode | XValueError | XOther.
 
 (* what handing one datagram to an endpoint did *)
 Record effect := { e_callbacks : N; e_sent : N; e_scheduled : N }.
